@@ -4,13 +4,20 @@
   FULL STATEMENT (kept visible; proved so far only in the parts below):
     for function-free, well-formed a b and every σ: `unify a b σ` succeeds iff `unify b a σ`
     succeeds, and the two results resolve every variable to variants of each other.
-  What is proved here (`_partial`): the dispatch of `unify` is symmetric —
+  PROVED (for well-formed, function-free, anonymous-variable-free operands, every fuel):
+    * `symmetric_values`: if both orders succeed, the two results have exactly the same solutions (a
+      substitution validates one iff it validates the other) — every variable gets the same resolved
+      value, up to the naming of what stays unbound;
+    * `symmetric_success`: if `unify a b σ` succeeds with a solvable result (no occurs-check situation),
+      `unify b a σ` does not report failure.
+  Also proved (`_partial`): the dispatch of `unify` is symmetric —
     a non-variable operand facing a variable is handed to the variable's side whichever
     side it is on, constants compare symmetrically, and a literal empty list fails against
     a non-empty list pattern in both orders.  The list/complex recursion is covered by the
     correspondence suite, which runs every pair in both orders (random + exhaustive universe).
 -/
 import SuironVerif.Model.Unify
+import SuironVerif.Lemmas.UnifyMgu
 namespace Suiron.C07
 
 theorem fEq_symm (x y : UInt64) : fEq x y = fEq y x := by
@@ -57,6 +64,31 @@ theorem empty_vs_nonempty_partial (fo : FloatOps) (f : Nat) (e n : Term) (c : Na
     cases e <;> simp_all [Term.empty, Term.beq, Term.isAnon, Term.isNil, Term.isVar, Term.isFunc]
   · unfold unify unifyList unify
     cases e <;> simp_all [Term.empty, Term.beq, Term.isAnon, Term.isNil, Term.isVar, Term.isFunc]
+
+/-- both orders, both successful: the results have the same solutions -/
+theorem symmetric_values (fo : FloatOps) (f f' : Nat) (a b : Term) (σ σ1 σ2 : Subst)
+    (h1 : unify fo f a b σ = .ok σ1) (h2 : unify fo f' b a σ = .ok σ2)
+    (ha : Spec.goodT a = true) (hb : Spec.goodT b = true) (hσ : Spec.SubstGood σ)
+    (fa : Spec.Term.AF a = true) (fb : Spec.Term.AF b = true) (fσ : Spec.SubstAF σ) (θ : Nat → Spec.FO) :
+    Spec.Solves θ σ1 ↔ Spec.Solves θ σ2 := by
+  have s1 := (Spec.unify_sound fo f).1 a b σ σ1 h1 ha hb hσ fa fb fσ
+  have s2 := (Spec.unify_sound fo f').1 b a σ σ2 h2 hb ha hσ fb fa fσ
+  have g1 := fun hs hu => ((Spec.unify_general fo θ f).1 a b σ σ1 h1 (Spec.goodT_FF a ha) (Spec.goodT_FF b hb) (Spec.SubstGood_FF hσ) hs hu).1
+  have g2 := fun hs hu => ((Spec.unify_general fo θ f').1 b a σ σ2 h2 (Spec.goodT_FF b hb) (Spec.goodT_FF a ha) (Spec.SubstGood_FF hσ) hs hu).1
+  constructor
+  · intro hs; exact g2 (hs.mono s1.1) (s1.2.2 θ hs).symm
+  · intro hs; exact g1 (hs.mono s2.1) (s2.2.2 θ hs).symm
+
+/-- success in one order (with a solvable result) excludes failure in the other -/
+theorem symmetric_success (fo : FloatOps) (f f' : Nat) (a b : Term) (σ σ1 : Subst)
+    (h1 : unify fo f a b σ = .ok σ1) (hsolv : ∃ θ, Spec.Solves θ σ1)
+    (ha : Spec.goodT a = true) (hb : Spec.goodT b = true) (hσ : Spec.SubstGood σ)
+    (fa : Spec.Term.AF a = true) (fb : Spec.Term.AF b = true) (fσ : Spec.SubstAF σ) :
+    unify fo f' b a σ ≠ .fail := by
+  obtain ⟨θ, hs⟩ := hsolv
+  have s1 := (Spec.unify_sound fo f).1 a b σ σ1 h1 ha hb hσ fa fb fσ
+  intro hf
+  exact (Spec.unify_complete fo θ f').1 b a σ hf hb ha hσ (hs.mono s1.1) (s1.2.2 θ hs).symm
 
 def fo0 : FloatOps := ⟨fun a _ => a, fun a _ => a, fun a _ => a, fun a _ => a, fun _ => 0, fun _ => ""⟩
 -- `[$X] = []` and `[] = [$X]` both fail
